@@ -619,7 +619,17 @@ class JordanCurve:
             assert start_point == end_point
             assert id(start_point) == id(end_point)
         for segment in other:
+            start_point = segment.ctrlpoints[0]
+            end_point = segment.ctrlpoints[-1]
+            degree = segment.degree
             segment.clean()
+            if segment.degree != degree:
+                # keep the junction objects shared with the neighbours
+                segment.ctrlpoints = (
+                    [start_point]
+                    + list(segment.ctrlpoints[1:-1])
+                    + [end_point]
+                )
         self.__lenght = None
         segments = []
         for bezier in other:
